@@ -109,6 +109,9 @@ type FEnc struct {
 	factInfo     []factInfo
 	symMu        sync.Mutex
 	prune        bool                // cone-of-influence pruning (off: it dropped needed facts in practice)
+	pureAssumed  map[string]bool
+	blockPos     map[*ssa.BasicBlock]int    // position in the processing order
+	blockReach   map[*ssa.BasicBlock]string // reach condition at block entry
 	exposed      map[*ssa.Alloc]bool // locals whose address is used as a value somewhere in the function
 	catParts     map[string][]string // concatenation term -> its flattened parts
 	catCache     map[string]string
@@ -900,6 +903,11 @@ func (e *FEnc) lookupVar(st *State, name string, blk *ssa.BasicBlock, idx int) (
 	if best != nil {
 		return best.get(), true
 	}
+	// no definition dominates the point: the variable received its value only on some paths (e.g. inside
+	// an if). Its value here is the one of the last executed definition, and arbitrary on paths without one.
+	if v, ok := e.pathMergedVar(st, name, blk, idx); ok {
+		return v, true
+	}
 	for _, p := range e.fn.Params {
 		if p.Name() == name {
 			return e.valOf(p), true
@@ -1003,7 +1011,7 @@ func (e *FEnc) run() {
 	}
 	e.computeExposed()
 	order := e.rpo()
-	st := &State{reach: "true", cells: map[int]*Val{}, heap: map[string]string{}, epoch: 0, leaked: map[int]bool{}, pub: map[int]*Val{}, called: map[string]string{}}
+	st := &State{reach: "true", cells: map[int]*Val{}, heap: map[string]string{}, epoch: 0, leaked: map[int]bool{}, pub: map[int]*Val{}, called: map[string]string{}, lastRes: map[string]*Val{}}
 	// parameters
 	for _, p := range fn.Params {
 		v := e.newVal(p.Type(), "p_"+mangle(p.Name()))
@@ -1037,6 +1045,11 @@ func (e *FEnc) run() {
 		}
 	}
 	e.exit = map[*ssa.BasicBlock]*State{}
+	e.blockPos = map[*ssa.BasicBlock]int{}
+	e.blockReach = map[*ssa.BasicBlock]string{}
+	for i, b := range order {
+		e.blockPos[b] = i
+	}
 	for _, b := range order {
 		var cur *State
 		if b == fn.Blocks[0] {
@@ -1048,6 +1061,7 @@ func (e *FEnc) run() {
 			}
 		}
 		e.curBlock = b
+		e.blockReach[b] = cur.reach
 		e.cur = cur
 		for _, id := range e.pendingLeaks {
 			e.leak(id)
@@ -1293,6 +1307,40 @@ func (e *FEnc) mergeStates(b *ssa.BasicBlock, es []inEdge) (*State, []string) {
 	for _, ed := range es {
 		for k := range ed.state.leaked {
 			st.leaked[k] = true
+		}
+	}
+	st.lastRes = map[string]*Val{}
+	{
+		names := map[string]bool{}
+		for _, ed := range es {
+			for k := range ed.state.lastRes {
+				names[k] = true
+			}
+		}
+		for _, k := range sortedKeys(names) {
+			var vs []*Val
+			var cs []string
+			okAll := true
+			for i, ed := range es {
+				v, ok := ed.state.lastRes[k]
+				if !ok {
+					// no call on that path: the "last result" is arbitrary there
+					okAll = false
+					break
+				}
+				vs = append(vs, v)
+				cs = append(cs, conds[i])
+			}
+			if okAll {
+				st.lastRes[k] = e.mergeVals(cs, vs, "lastres")
+			} else {
+				// keep the value of the paths that have one; guarded by called() in clauses
+				for _, ed := range es {
+					if v, ok := ed.state.lastRes[k]; ok {
+						st.lastRes[k] = v
+					}
+				}
+			}
 		}
 	}
 	st.called = map[string]string{}
@@ -1811,4 +1859,53 @@ func (e *FEnc) computeExposed() {
 			}
 		}
 	}
+}
+
+func (e *FEnc) pathMergedVar(st *State, name string, blk *ssa.BasicBlock, idx int) (*Val, bool) {
+	type cand struct {
+		dr  debugRef
+		pos int
+	}
+	var cs []cand
+	for _, dr := range e.debug {
+		if dr.name != name || dr.isAddr {
+			continue
+		}
+		ex, done := e.exit[dr.block]
+		if !done || ex == nil {
+			if dr.block != blk {
+				continue
+			}
+		}
+		if dr.block == blk && dr.idx >= idx {
+			continue
+		}
+		cs = append(cs, cand{dr, e.blockPos[dr.block]*100000 + dr.idx})
+	}
+	if len(cs) == 0 {
+		return nil, false
+	}
+	sort.Slice(cs, func(i, j int) bool { return cs[i].pos < cs[j].pos })
+	first := e.valOf(cs[0].dr.x)
+	if first.T == "" && first.P == nil && first.Fields == nil {
+		return nil, false
+	}
+	cur := e.newVal(cs[0].dr.x.Type(), "anyv_"+mangle(name))
+	for _, c := range cs {
+		v := e.valOf(c.dr.x)
+		if v.Sort != cur.Sort {
+			return nil, false
+		}
+		var reach string
+		if c.dr.block == blk {
+			reach = st.reach
+		} else {
+			reach = e.blockReach[c.dr.block]
+		}
+		if reach == "" {
+			continue
+		}
+		cur = &Val{Ty: cur.Ty, Sort: cur.Sort, T: fmt.Sprintf("(ite %s %s %s)", reach, e.term(v), e.term(cur))}
+	}
+	return cur, true
 }
